@@ -431,3 +431,222 @@ def classify_overflows(tracks, ts_queue, standard_length, allowed):
         label = "torn" if key in torn else ("sorted" if key in {(c, p) for (c, p, _t, _v) in zl} else "other")
         out.append((label, i, k, start, key, t, length))
     return out
+
+
+# ----------------------------------------------------------------------------- audit round 4, B5: the MECHANISM of D18 / D18b / D18c, modelled
+#
+# The predicates of D18 (C08), D18b / D18c (C09) used to ask "is the damaged key the key of some zero-length note?".  They now ask "is the
+# damage exactly what the recorded mechanism produces?".  The mechanism is written down here once more, from the findings' texts, on plain
+# message tuples (nothing of the library runs):
+#   split      — a note-on read when the piece is full is deferred to the next piece, a note-off is not (D18's tear); sounding notes (as far
+#                as the splitter's table of sounding notes knows) are closed at the boundary and re-struck; a deferred queue is dropped at the
+#                end of the input (D8);
+#   re-quantise — the bar piece is sorted by (tick, channel, type, pitch) with note-off before note-on (a zero-length note becomes an orphan
+#                note-off followed by an orphaned note-on); the pairing closes an open note-on at the next note-on of its key, else
+#                `standard_length` later; an orphan note-off is ignored; every note then gets the largest allowed value that is not above
+#                its length and fits before the next onset of its key, or is removed (stored: standard length, default note values);
+#   normalise  — Bar() normalises the piece: a note-on of a key that is already sounding is skipped, and so is the note-off that answers it;
+#                an orphan note-off is skipped; a note-on that is never closed is removed (so the orphaned note-on SWALLOWS the next note of
+#                its key: both vanish).
+
+def split_model(msgs, caps):
+    """the pieces `RelativeSequence.split(caps)` returns, as recorded (with D8 and D18): list of message lists.  Unlike `_split1` (one round
+    of the bar splitter) the table of sounding notes lives on from one capacity to the next."""
+    wm, cur, open_, pieces = list(msgs), [], {}, []
+    for cap in caps:
+        nxt, queue, rem = [], [], cap
+        while rem >= 0:
+            if not wm:
+                if cur:
+                    pieces.append(cur)
+                    cur = nxt
+                break
+            m = wm.pop(0)
+            if m[TY] == ON:
+                if rem > 0:
+                    cur.append(m)
+                    open_[(m[CH], m[NOTE])] = m
+                else:
+                    queue.append(m)
+            elif m[TY] == OFF:
+                cur.append(m)
+                open_.pop((m[CH], m[NOTE]), None)
+            elif m[TY] == WAIT:
+                if m[TIME] <= rem:
+                    rem -= m[TIME]
+                    cur.append(m)
+                else:
+                    if rem > 0:
+                        cur.append(pm(WAIT, m[CH], rem))
+                    for (c, p), v in open_.items():
+                        cur.append(pm(OFF, c, None, note=p))
+                        queue.append(pm(ON, c, None, note=p, vel=v[VEL]))
+                    queue.append(pm(WAIT, m[CH], m[TIME] - rem))
+                    if cur:
+                        pieces.append(cur)
+                    wm[0:0] = queue
+                    cur = nxt
+                    break
+            else:
+                if rem > 0:
+                    cur.append(m)
+                else:
+                    queue.append(m)
+    if wm:
+        cur = cur + wm
+    if cur:
+        pieces.append(cur)
+    return pieces
+
+
+def lay_out(pieces):
+    """timed events of pieces laid end to end: [(tick on the common clock, message)], and the duration of each piece"""
+    laid, off, durs = [], 0, []
+    for p in pieces:
+        tp, d = rel_timed(p)
+        laid.extend((t + off, m) for t, m in tp)
+        off += d
+        durs.append(d)
+    return laid, durs
+
+
+def requant_model(piece, allowed, standard_length):
+    """what `Sequence(relative_sequence=piece).quantise_note_lengths(do_not_extend=True)` leaves behind, read back as a relative list: the
+    piece is stamped and sorted by (tick, channel, type, pitch) — note-off (6) before note-on (7) —, its note events are paired per key (an
+    open note-on is closed by the next note-on of its key, else `standard_length` after its onset; a note-off of a silent key is ignored),
+    every note gets the allowed value closest to (= with do_not_extend: largest not above) its length among those that fit before the next
+    onset of its key, or is removed when there is none; the result is sorted again and the rests are re-derived (a trailing rest up to the
+    piece's end is kept through the end marker)."""
+    t, ev, last_wait = 0, [], False
+    for m in piece:
+        if m[TY] == WAIT:
+            t += m[TIME]
+            last_wait = True
+        else:
+            ev.append((t, m))
+            last_wait = False
+    keyf = lambda x: (x[0], -1 if x[1][CH] is None else x[1][CH], x[1][TY], -1 if x[1][NOTE] is None else x[1][NOTE])      # noqa: E731
+    ev.sort(key=keyf)
+    end = t if last_wait else None
+    # pairing: per channel, in order of appearance
+    pairs, open_ = {}, {}
+    for (tk, m) in ev:
+        if m[TY] == ON:
+            lst = pairs.setdefault(m[CH], [])
+            op = open_.setdefault(m[CH], {})
+            if m[NOTE] in op:
+                lst[op.pop(m[NOTE])].append(tk)
+            lst.append([m, tk])
+            op[m[NOTE]] = len(lst) - 1
+        elif m[TY] == OFF:
+            pairs.setdefault(m[CH], [])
+            op = open_.setdefault(m[CH], {})
+            if m[NOTE] in op:
+                pairs[m[CH]][op.pop(m[NOTE])].append(tk)
+    out = []
+    for ch, lst in pairs.items():
+        for p in lst:
+            if len(p) == 2:
+                p.append(p[1] + standard_length)
+        for i, (m, on, off) in enumerate(lst):
+            nxt = next((q[1] for q in lst[i + 1:] if q[0][NOTE] == m[NOTE]), None)
+            dur = off - on
+            fit = [v for v in allowed if v <= dur and (nxt is None or on + v <= nxt)]
+            if not fit:
+                continue
+            best = min(fit, key=lambda v: abs(v - dur))
+            out.append((on, m))
+            out.append((on + best, pm(OFF, m[CH], None, note=m[NOTE])))
+    out.extend((tk, m) for (tk, m) in ev if m[TY] not in (ON, OFF))
+    out.sort(key=keyf)
+    res, now = [], 0
+    for (tk, m) in out:
+        if tk > now:
+            res.append(pm(WAIT, m[CH], tk - now))
+            now = tk
+        res.append(m)
+    if end is not None and end > now:
+        res.append(pm(WAIT, None, end - now))
+    return res
+
+
+def normalise_model(piece):
+    """the note events (and rests) of a relative list after `normalise_relative`, as recorded: per key a counter of pending note-ons — a
+    note-on is kept only when its key is silent, a note-off only when it brings the counter back to zero (a note-off of a silent key is
+    skipped); the kept note-on of a key that is still pending at the end is removed again.  Rests are consolidated; other events are
+    kept (repeated signatures are not dropped here: the model is about notes and durations)."""
+    pending, out, wait = {}, [], 0
+    for m in piece:
+        if m[TY] == WAIT:
+            wait += m[TIME]
+            continue
+        k = (m[CH], m[NOTE])
+        if m[TY] == ON:
+            lst = pending.setdefault(k, [])
+            lst.append(len(out) + (1 if wait > 0 else 0))
+            if len(lst) != 1:
+                continue
+        elif m[TY] == OFF:
+            lst = pending.get(k, [])
+            if not lst:
+                continue
+            lst.pop()
+            if lst:
+                continue
+        if wait > 0:
+            out.append(pm(WAIT, m[CH], wait))
+            wait = 0
+        out.append(m)
+    if wait > 0:
+        out.append(pm(WAIT, None, wait))
+    drop = {lst[0] for lst in pending.values() if lst}
+    return [m for i, m in enumerate(out) if i not in drop]
+
+
+def bars_model(tracks, ts_queue, requant, allowed, standard_length, max_bars=400):
+    """the bars `sequences_split_bars` is recorded to build, track by track: the bars are walked with the one-change-per-bar signature queue
+    (`lag_walk` on `ts_queue`, the order the splitter holds), every track is cut round by round (`_split1`), each piece is re-quantised
+    (`requant_model`, if on) and normalised (`normalise_model`), and a piece that then lasts longer than its bar stops the walk (Bar()
+    raises).  Returns {"laid": [timed note events of track i's bars on the piece clock], "bars": number of bars built,
+    "overflow": None | (track, bar), "starts": [bar starts]}."""
+    rest = [list(t) for t in tracks]
+    laid = [[] for _ in tracks]
+    starts, overflow, nb = [], None, 0
+    for k, (start, length, _sig, _key, _a, _b) in enumerate(lag_walk(ts_queue, [], max_bars)):
+        if length <= 0:
+            break
+        starts.append(start)
+        more_any = False
+        for i in range(len(rest)):
+            piece, rest[i], more = _split1(rest[i], length) if rest[i] else ([], [], False)
+            more_any = more_any or more
+            if requant:
+                piece = requant_model(piece, allowed, standard_length)
+            piece = normalise_model(piece)
+            tp, d = rel_timed(piece)
+            if d > length:
+                overflow = (i, k)
+                break
+            laid[i].extend((t + start, m) for t, m in tp if m[TY] in (ON, OFF))
+        if overflow:
+            break
+        nb = k + 1
+        if not more_any:
+            break
+    return {"laid": laid, "bars": nb, "overflow": overflow, "starts": starts}
+
+
+def without_zero_notes(rel, key):
+    """the relative list without the zero-length notes (a note-on answered on its own tick, paired as `notes_of` pairs them) of key
+    (channel, pitch): what the track would be if the degenerate notes a finding is about were not there"""
+    t, open_, drop = 0, {}, set()
+    for i, m in enumerate(rel):
+        if m[TY] == WAIT:
+            t += m[TIME]
+        elif m[TY] == ON and (m[CH], m[NOTE]) == tuple(key):
+            open_ = {"i": i, "t": t}
+        elif m[TY] == OFF and (m[CH], m[NOTE]) == tuple(key) and open_:
+            if open_["t"] == t:
+                drop |= {open_["i"], i}
+            open_ = {}
+    return [m for i, m in enumerate(rel) if i not in drop]
